@@ -362,6 +362,7 @@ class World:
         self.dec = Decisions(seed, overrides)
         self.loop = SimLoop(start, step_cap)
         self.loop.timer_slop = timer_slop
+        self.loop.owner_of = lambda h: getattr(h._context.get(CUR_HOST) if h._context is not None else None, "name", None)
         self.t0 = start
         self.hosts = {}
         self.peers = {}
@@ -378,6 +379,12 @@ class World:
         self.api_log = []  # dicts: t_call, t_done, host, op, args, result/exc
         self.on_callback = None
         self.net = SimNet(self, faults or FaultConfig())
+
+        def _count_postponed():
+            fc = self.net.fault_counts
+            fc["stall_postponed_events"] = fc.get("stall_postponed_events", 0) + 1
+
+        self.loop.on_postpone = _count_postponed
         self._fut_seq = 0
         orig_create_future = self.loop.create_future
 
